@@ -87,6 +87,13 @@ def doKeepAlive (retry : Bool) (p : Pub) (s : Store) : List Attempt → Pub × S
 def keepAlive (p : Pub) (s : Store) (a : Attempt) : Pub × Store × Bool :=
   ((p.attempt s a).1, (p.attempt s a).2, a.isOk)
 
+/-- the PUT events the watchers of the service key see during an attempt list (up to the first success) -/
+def attemptEvents (p : Pub) : List Attempt → List Ev
+  | [] => []
+  | .kaErr l :: rest => .put (pubKeyId p.id l) p.value :: attemptEvents p rest
+  | .ok l :: _ => [.put (pubKeyId p.id l) p.value]
+  | _ :: rest => attemptEvents p rest
+
 /-- the leases whose keys nobody keeps alive after an attempt list (they expire with their TTL) -/
 def orphanLeases : List Attempt → List Nat
   | [] => []
